@@ -1,24 +1,30 @@
 #!/bin/bash
-# tools/rerun_seeds.sh [tier] [name-filter]: applies every seeded change to /repo's working tree, runs the check of the
-# property it breaks, restores /repo, and prints a table. A seeded change that is not caught is a regression of the
-# machinery's sensitivity.
+# tools/rerun_seeds.sh [tier] [name-filter]
+# Sensitivity regression of the machinery: every seeded change under /verif/seeded is applied to a scratch git worktree
+# of /repo (never to /repo itself), the check of the property it breaks is run against that worktree (VERIF_REPO), and
+# the result is reported as CAUGHT / MISSED. With KEEP_REPLAYS=1 the shrunk replay file of each caught change is copied
+# to regress/<ID>/seed-<name>.json.
 cd /verif || exit 2
 TIER="${1:-quick}"; FILTER="${2:-}"
-git -C /repo status --short | grep -q . && { echo "/repo has uncommitted changes: refusing"; exit 2; }
+WT="$(mktemp -d /tmp/seedwt.XXXXXX)"; rmdir "$WT"
+git -C /repo worktree add -q --detach "$WT" HEAD || exit 2
+trap 'git -C /repo worktree remove --force "$WT" 2>/dev/null; git -C /repo worktree prune' EXIT
 missed=0
 for d in seeded/*/; do
   name=$(basename "$d")
   [ -n "$FILTER" ] && [[ "$name" != *$FILTER* ]] && continue
   prop=$(python3 -c "import json;print(json.load(open('$d/meta.json'))['breaks_property'])")
-  git -C /repo apply "/verif/$d/patch.diff" || { echo "$name: patch does not apply"; missed=$((missed+1)); continue; }
-  ./run.sh "$prop" "$TIER" > /tmp/rerun-seed.log 2>&1; rc=$?
-  git -C /repo checkout -- .
-  v=$(grep -m1 '^violation:' /tmp/rerun-seed.log | cut -c1-150)
+  git -C "$WT" apply "/verif/$d/patch.diff" || { echo "MISSED  $name: patch does not apply"; missed=$((missed+1)); git -C "$WT" checkout -- .; continue; }
+  log=$(mktemp)
+  VERIF_REPO="$WT" ./run.sh "$prop" "$TIER" > "$log" 2>&1; rc=$?
+  git -C "$WT" checkout -- . ; git -C "$WT" clean -fdq
+  v=$(grep -m1 '^violation:' "$log" | cut -c1-150)
   if [ $rc -eq 1 ] && [ -n "${KEEP_REPLAYS:-}" ]; then
-    rp=$(grep -m1 '^VIOLATION' /tmp/rerun-seed.log | sed 's/.*replay=//')
+    rp=$(grep -m1 '^VIOLATION' "$log" | sed 's/.*replay=//')
     [ -f "$rp" ] && mkdir -p "regress/$prop" && cp "$rp" "regress/$prop/seed-$name.json"
   fi
-  if [ $rc -eq 1 ]; then echo "CAUGHT  $name ($prop) :: $v"; else echo "MISSED  $name ($prop) exit=$rc :: $(tail -1 /tmp/rerun-seed.log | cut -c1-150)"; missed=$((missed+1)); fi
+  if [ $rc -eq 1 ]; then echo "CAUGHT  $name ($prop) :: $v"; else echo "MISSED  $name ($prop) exit=$rc :: $(tail -1 "$log" | cut -c1-150)"; missed=$((missed+1)); fi
+  rm -f "$log"
 done
 git checkout -- evidence 2>/dev/null
 echo "missed=$missed"
